@@ -198,6 +198,9 @@ func c07Run(c c07Case) (pubs []envnats.Msg, problems []string) {
 		s.SetLogger(nil)
 		s.SetWorkerCount(1)
 		pattern := strings.TrimPrefix(c.Name, "t.")
+		if c.Name == "t" {
+			pattern = "" // the service's root resource
+		}
 		s.Handle(pattern,
 			res.Access(func(r res.AccessRequest) { act(r.(*res.Request)) }),
 			res.GetResource(func(r res.GetRequest) { act(r.(*res.Request)) }),
